@@ -62,6 +62,7 @@ impl WaitSlot {
 
         // Most scheduler stalls close within one worker timeslice.
         vpoint!(WAIT, "N_Yield");
+        vemit!(WAIT, "N_Yield", "slot" => self as *const Self as usize);
         thread::yield_now();
         if blocked() {
             #[cfg(grevm_verif)]
